@@ -32,6 +32,67 @@ pub fn fragments_wide() -> Vec<&'static str> {
 pub const FRAGMENTS_SMALL: &[&str] =
     &["a", "in", "1.5", "e", "+", "<", "=", "!", "(", ")", ",", "'", " ", "é", "€", "😀"];
 
+/// Long single tokens: for every token class a few shapes, at every length 1..=70 and at
+/// 2^7..2^top (fixed-size buffers, digit-count and scale limits, length fields). Each input is
+/// (shape name, text).
+pub fn long_token_inputs(top: u32) -> Vec<(String, String)> {
+    let mut sizes: Vec<usize> = (1..=70).collect();
+    for k in 7..=top {
+        sizes.push(1 << k);
+        sizes.push((1 << k) + 1);
+        sizes.push((1 << k) - 1);
+    }
+    let shapes: Vec<(&str, Box<dyn Fn(usize) -> String>)> = vec![
+        ("digits-9", Box::new(|n| "9".repeat(n))),
+        ("digits-0", Box::new(|n| "0".repeat(n))),
+        ("power-of-ten", Box::new(|n| format!("1{}", "0".repeat(n)))),
+        ("fraction-zeros-then-1", Box::new(|n| format!("0.{}1", "0".repeat(n)))),
+        ("fraction-zeros", Box::new(|n| format!("1.{}", "0".repeat(n)))),
+        ("fraction-9", Box::new(|n| format!("0.{}", "9".repeat(n)))),
+        ("fraction-1-then-zeros", Box::new(|n| format!("0.1{}", "0".repeat(n)))),
+        ("int-and-fraction", Box::new(|n| format!("{}.{}", "1".repeat(n), "1".repeat(n)))),
+        ("dots", Box::new(|n| format!("1{}", ".".repeat(n)))),
+        ("exponent", Box::new(|n| format!("1e{}", "9".repeat(n)))),
+        ("number-in-sum", Box::new(|n| format!("1 + 0.{}1 * 2", "0".repeat(n)))),
+        ("name-a", Box::new(|n| "a".repeat(n))),
+        ("name-dots", Box::new(|n| format!("a{}", ".".repeat(n)))),
+        ("name-underscores", Box::new(|n| "_".repeat(n))),
+        ("name-multibyte", Box::new(|n| "\u{e9}".repeat(n))),
+        ("call-long-name", Box::new(|n| format!("{}(1)", "f".repeat(n)))),
+        ("string-a", Box::new(|n| format!("'{}'", "a".repeat(n)))),
+        ("string-multibyte", Box::new(|n| format!("\"{}\"", "\u{20ac}".repeat(n)))),
+        ("string-unterminated", Box::new(|n| format!("'{}", "a".repeat(n)))),
+        ("string-of-quotes", Box::new(|n| format!("'{}'", "\"".repeat(n)))),
+        ("plus-run", Box::new(|n| format!("1{}", "+".repeat(n)))),
+        ("minus-run-prefix", Box::new(|n| format!("{}1", "-".repeat(n)))),
+        ("bang-run", Box::new(|n| format!("{}true", "!".repeat(n)))),
+        ("equals-run", Box::new(|n| format!("a{}1", "=".repeat(n)))),
+        ("less-run", Box::new(|n| format!("1{}2", "<".repeat(n)))),
+        ("amp-run", Box::new(|n| format!("1{}2", "&".repeat(n)))),
+        ("question-run", Box::new(|n| format!("a{}1:2", "?".repeat(n)))),
+        ("spaces-before", Box::new(|n| format!("{}1", " ".repeat(n)))),
+        ("mixed-whitespace-inside", Box::new(|n| format!("f{}(1{}){}", " \t\r\n".repeat(n), "\n".repeat(n), "\t".repeat(n)))),
+        ("semicolons", Box::new(|n| format!("1{}", ";".repeat(n)))),
+        ("commas", Box::new(|n| format!("[1{}]", ",".repeat(n)))),
+        ("word-operator-lookalike", Box::new(|n| format!("1 in{} [1]", "n".repeat(n)))),
+        ("true-lookalike", Box::new(|n| format!("true{}", "e".repeat(n)))),
+    ];
+    // shapes that are many tokens (one per character): the engine's token look-ahead and prefix
+    // recursion are quadratic / stack-deep in the token count — C01's depth ladder owns those
+    // sizes (and their known findings); here they stop at 257
+    let many_tokens = ["name-multibyte", "minus-run-prefix", "bang-run", "semicolons", "plus-run"];
+    let mut v = Vec::new();
+    for (name, f) in &shapes {
+        for n in &sizes {
+            if many_tokens.contains(name) && *n > 257 {
+                continue;
+            }
+            v.push((format!("{} n={}", name, n), f(*n)));
+        }
+    }
+    v
+}
+
 pub fn normalise_panic(msg: &str) -> String {
     let mut s: String = msg
         .chars()
